@@ -5,7 +5,7 @@ from pbt import gens, oracles as o, repairing
 from pbt.core import Outcome, Raised, SubCheck, bad, discard
 
 PROPERTY = "C08"
-RULE = ("Graphs come from the library's generation (orders 1..4, thresholds 1..3, masks built so that the oracle's "
+RULE = ("Graphs come from the library's generation (orders 1..6, thresholds 1..3, masks built so that the oracle's "
         "graph exists); a walk of length n in [4k+2, 12k+10] is drawn from a retained start vertex. (a) EVERY single "
         "edit of the walk (every position in [k, n-2k), substitution by each other nucleotide, insertion of each "
         "nucleotide, deletion) is enumerated per walk; (b) drawn edit sets with gaps >= 3k+2. Oracle: the original "
@@ -31,7 +31,7 @@ def setup(case):
 
 @st.composite
 def single_cases(draw, tier):
-    spec = draw(gens.generated_graphs(1, 4, {1: 2, 2: 4, 3: 4, 4: 2}))
+    spec = draw(gens.generated_graphs(1, 6, {1: 4, 2: 8, 3: 8, 4: 4, 5: 1, 6: 1}))
     k = spec["k"]
     starts = [v for v, r in enumerate(spec["rows"]) if r]
     start = starts[draw(st.integers(0, len(starts) - 1))]
